@@ -134,7 +134,8 @@ Lemma check_prepared_own x v h :
   (In (v, h) (D x') -> In (v, h) (D x) \/ commit_facts x' v h) /\ incl (tc_out x) (tc_out x') /\
   ((lockv x' = lockv x /\ t_c (tc_t x') = t_c (tc_t x) /\ (In (v, h) (C x') -> In (v, h) (C x) \/ certC (tc_t x') v h))
    \/ (lockv x <> Some v /\ lockv x' = Some v /\ hash_at (tc_t x') v = h /\ certP (tc_t x') v h /\ In (v, h) (C x') /\
-       (forall q, In q (t_c (tc_t x')) -> In q (t_c (tc_t x)) \/ q = (v, h, my_sig c)) /\ incl (t_c (tc_t x)) (t_c (tc_t x')))).
+       (forall q, In q (t_c (tc_t x')) -> In q (t_c (tc_t x)) \/ q = (v, h, my_sig c)) /\ incl (t_c (tc_t x)) (t_c (tc_t x')) /\
+       t_c (tc_t x') = store_in (t_c (tc_t x)) v h (my_sig c))).
 Proof.
   cbn zeta. unfold check_prepared.
   assert (R : E x = E x /\ tc_v x = tc_v x /\ flat_map voted_of (sent_of (tc_out x)) = flat_map voted_of (sent_of (tc_out x)) /\
@@ -144,7 +145,8 @@ Proof.
     (In (v, h) (D x) -> In (v, h) (D x) \/ commit_facts x v h) /\ incl (tc_out x) (tc_out x) /\
     ((lockv x = lockv x /\ t_c (tc_t x) = t_c (tc_t x) /\ (In (v, h) (C x) -> In (v, h) (C x) \/ certC (tc_t x) v h))
      \/ (lockv x <> Some v /\ lockv x = Some v /\ hash_at (tc_t x) v = h /\ certP (tc_t x) v h /\ In (v, h) (C x) /\
-         (forall q, In q (t_c (tc_t x)) -> In q (t_c (tc_t x)) \/ q = (v, h, my_sig c)) /\ incl (t_c (tc_t x)) (t_c (tc_t x))))).
+         (forall q, In q (t_c (tc_t x)) -> In q (t_c (tc_t x)) \/ q = (v, h, my_sig c)) /\ incl (t_c (tc_t x)) (t_c (tc_t x)) /\
+         t_c (tc_t x) = store_in (t_c (tc_t x)) v h (my_sig c)))).
   { do 7 (split; [try reflexivity; split; reflexivity|]). split; [apply grows_by_refl|]. split; [apply grows_by_refl|]. split; [auto|]. split; [apply incl_refl|]. left. auto. }
   destruct (match t_prepared (tc_t x) with Some pv => pv =? v | None => false end) eqn:Epv; [exact R|].
   destruct (is_preprepared (tc_t x) v h) as [e|] eqn:Ep; [|exact R].
@@ -192,7 +194,8 @@ Proof.
         split.
         -- intros [[v' h'] s'] Hq. rewrite Tc, B1 in Hq. subst t1. cbn [store_c set_prepared t_c] in Hq.
            destruct (In_store_in _ _ _ _ _ _ _ Hq) as [Hq'|Hq']; [left; exact Hq'|right; exact Hq'].
-        -- rewrite Tc, B1. subst t1. cbn [store_c set_prepared t_c]. apply incl_store_in.
+        -- split; [rewrite Tc, B1; subst t1; cbn [store_c set_prepared t_c]; apply incl_store_in|].
+           rewrite Tc, B1. subst t1. reflexivity.
 Qed.
 
 Definition sentv (x : tc) : list vote := flat_map voted_of (sent_of (tc_out x)).
@@ -210,6 +213,7 @@ Record pp_sum (x x' : tc) (v h : N) (ent : ppent) : Prop := {
   ps_c : forall q, In q (t_c (tc_t x')) -> In q (t_c (tc_t x)) \/
            (q = (v, h, my_sig c) /\ In (v, h) (C x') /\ lockv x' = Some v /\ lockv x <> Some v /\ hash_at (tc_t x') v = h);
   ps_cmono : incl (t_c (tc_t x)) (t_c (tc_t x'));
+  ps_ceq : t_c (tc_t x') = t_c (tc_t x) \/ t_c (tc_t x') = store_in (t_c (tc_t x)) v h (my_sig c);
   ps_C : grows_by (C x) (C x') (v, h);
   ps_D : grows_by (D x) (D x') (v, h);
   ps_Dfacts : In (v, h) (D x') -> In (v, h) (D x) \/ commit_facts x' v h;
@@ -260,16 +264,19 @@ Proof.
   - intros v' e' H. rewrite (get_pp_ext _ _ v' P5), B1. subst t1. rewrite get_pp_store_p. apply pp_stable_store_pp. exact H.
   - intros [[v' h'] s'] Hq. rewrite P6, B1, U6 in Hq. apply In_store_in in Hq. exact Hq.
   - rewrite P6, B1, U6. apply incl_store_in.
-  - intros q Hq. destruct P11 as [(Q1 & Q2 & Q3)|(Q1 & Q2 & Q3 & Q4 & Q5 & Q6 & Q7)].
+  - intros q Hq. destruct P11 as [(Q1 & Q2 & Q3)|(Q1 & Q2 & Q3 & Q4 & Q5 & Q6 & Q7 & Q8)].
     + left. rewrite Q2, B1, U4 in Hq. exact Hq.
     + destruct (Q6 q Hq) as [Hq'|Hq']; [left; rewrite B1, U4 in Hq'; exact Hq'|right]. unfold lockv in *. rewrite B1, U5 in Q1. auto.
-  - destruct P11 as [(Q1 & Q2 & Q3)|(Q1 & Q2 & Q3 & Q4 & Q5 & Q6 & Q7)].
+  - destruct P11 as [(Q1 & Q2 & Q3)|(Q1 & Q2 & Q3 & Q4 & Q5 & Q6 & Q7 & Q8)].
     + rewrite Q2, B1, U4. apply incl_refl.
     + rewrite B1, U4 in Q7. exact Q7.
+  - destruct P11 as [(Q1 & Q2 & Q3)|(Q1 & Q2 & Q3 & Q4 & Q5 & Q6 & Q7 & Q8)].
+    + left. rewrite Q2, B1, U4. reflexivity.
+    + right. rewrite B1, U4 in Q8. exact Q8.
   - rewrite <- B4. exact P8.
   - rewrite <- B5. exact P9.
   - rewrite <- B5. exact P10.
-  - destruct P11 as [(Q1 & Q2 & Q3)|(Q1 & Q2 & Q3 & Q4 & Q5 & Q6 & Q7)].
+  - destruct P11 as [(Q1 & Q2 & Q3)|(Q1 & Q2 & Q3 & Q4 & Q5 & Q6 & Q7 & Q8)].
     + left. unfold lockv in *. rewrite Q1, B1. split; [exact U5|]. rewrite <- B4. exact Q3.
     + right. unfold lockv in *. rewrite B1, U5 in Q1. auto.
   - eapply incl_tran; [|exact Pout]. subst x1 x0' x0. cbn [tc_emit tc_set_t tc_out]. apply incl_tl.
@@ -413,6 +420,8 @@ Record step_sum (e : tev) (x x' : tc) : Prop := {
   ss_c : forall v h s, In (v, h, s) (t_c (tc_t x')) -> In (v, h, s) (t_c (tc_t x)) \/
            (s = my_sig c /\ In (v, h) (C x') /\ lockv x' = Some v /\ lockv x <> Some v /\ hash_at (tc_t x') v = h) \/
            (exists r o wm' sh', e = TMsg (MC r s o) wm' sh' /\ r_type r = T_COMMIT /\ r_view r = v /\ r_hash r = h /\ s_ok s = true);
+  ss_ceq : t_c (tc_t x') = t_c (tc_t x) \/
+           exists v h s, t_c (tc_t x') = store_in (t_c (tc_t x)) v h s /\ s_ok s = true /\ isMember (t_cm (tc_t x)) (s_id s) = true;
   ss_pp : forall v en, get_pp (tc_t x') v = Some en -> get_pp (tc_t x) v = Some en \/
            (pe_snd en = my_sig c /\ r_view (pe_ref en) = v /\ In (v, r_hash (pe_ref en)) (E x')) \/
            (exists r s b wm' sh', e = TMsg (MPP r s b) wm' sh' /\ en = {| pe_ref := r; pe_snd := s; pe_blk := b |} /\ r_view r = v) \/
@@ -428,8 +437,8 @@ Proof. intros E0 a b Ha Hna. rewrite E0 in Ha. contradiction. Qed.
 Lemma step_sum_refl e x : step_sum e x x.
 Proof.
   constructor; try apply incl_refl; try (split; reflexivity); try lia; auto.
-  - intros v en H; exact H.
-  - apply Vt_same_one. reflexivity.
+  all: try (intros v en H; exact H).
+  all: try (apply Vt_same_one; reflexivity).
 Qed.
 
 Lemma flat_map_incl {A B} (f : A -> list B) l l' : incl l l' -> incl (flat_map f l) (flat_map f l').
@@ -447,7 +456,7 @@ Lemma handle_c_own x r s o wm' sh' : step_sum (TMsg (MC r s o) wm' sh') x (handl
 Proof.
   unfold handle_c. destruct o; cbn [negb]; [|apply step_sum_refl].
   destruct (N.eqb_spec (r_type r) T_COMMIT) as [Ety|]; cbn [negb]; [|apply step_sum_refl].
-  destruct (isMember _ _); cbn [negb]; [|apply step_sum_refl].
+  destruct (isMember _ _) eqn:Emem; cbn [negb]; [|apply step_sum_refl].
   destruct (s_ok s) eqn:Esok; cbn [negb]; [|apply step_sum_refl].
   set (v := r_view r). set (h := r_hash r).
   set (x0 := if has_c (tc_t x) v h (s_id s) then x else _).
@@ -483,6 +492,7 @@ Proof.
   - intros v' h' s' H. left. rewrite S7 in H. subst xa. cbn [tc_set_t tc_t store_c t_p] in H. rewrite ?A1 in H. exact H.
   - intros v' h' s' H. rewrite Tc in H. subst xa. cbn [tc_set_t tc_t store_c t_c] in H. rewrite ?A1 in H.
     destruct (In_store_in _ _ _ _ _ _ _ H) as [H'|H']; [left; exact H'|]. inversion H'; subst. right; right. do 4 eexists. repeat split; auto.
+  - right. exists v, h, s. rewrite Tc. subst xa. cbn [tc_set_t tc_t store_c t_c]. rewrite ?A1. auto.
   - intros v' en H. left. rewrite (get_pp_ext _ _ v' S6) in H. subst xa. cbn [tc_set_t tc_t] in H. rewrite get_pp_store_c, ?A1 in H. exact H.
   - intros v' vt b H. left. rewrite S5 in H. subst xa. cbn [tc_set_t tc_t store_c t_vc] in H. rewrite ?A1 in H. exact H.
 Qed.
@@ -518,28 +528,31 @@ Proof.
   - eapply incl_tran; [exact A7|]. eapply incl_tran; [|exact Pout]. subst xa. cbn [tc_set_t tc_out]. apply incl_refl.
   - rewrite P4. subst xa. cbn [tc_set_t tc_t store_p t_vc]. apply incl_refl.
   - rewrite P6. subst xa. cbn [tc_set_t tc_t store_p t_p]. apply incl_store_in.
-  - destruct P11 as [(Q1 & Q2 & Q3)|(Q1 & Q2 & Q3 & Q4 & Q5 & Q6 & Q7)].
+  - destruct P11 as [(Q1 & Q2 & Q3)|(Q1 & Q2 & Q3 & Q4 & Q5 & Q6 & Q7 & Q8)].
     + rewrite Q2. subst xa. cbn [tc_set_t tc_t store_p t_c]. apply incl_refl.
     + subst xa. cbn [tc_set_t tc_t store_p t_c] in Q7. exact Q7.
   - intros v' y H. left. rewrite P1, Ea in H. exact H.
   - intros v' y H. destruct (proj2 P8 _ H) as [H'|H']; [left; rewrite Ca in H'; exact H'|].
-    inversion H'; subst v' y. destruct P11 as [(Q1 & Q2 & Q3)|(Q1 & Q2 & Q3 & Q4 & Q5 & Q6 & Q7)].
+    inversion H'; subst v' y. destruct P11 as [(Q1 & Q2 & Q3)|(Q1 & Q2 & Q3 & Q4 & Q5 & Q6 & Q7 & Q8)].
     + destruct (Q3 H) as [H''|H'']; [left; rewrite Ca in H''; exact H''|right; left; exact H''].
     + right; right. unfold lockv in *. subst xa. cbn [tc_set_t tc_t store_p t_prepared] in Q1. auto.
   - intros v' y H. destruct (proj2 P9 _ H) as [H'|H']; [left; rewrite Da in H'; exact H'|].
     inversion H'; subst v' y. destruct (P10 H) as [H''|H'']; [left; rewrite Da in H''; exact H''|right; exact H''].
   - intros vt H. left. rewrite EV in H. exact H.
   - apply Vt_same_one. exact EV.
-  - destruct P11 as [(Q1 & Q2 & Q3)|(Q1 & Q2 & Q3 & Q4 & Q5 & Q6 & Q7)].
+  - destruct P11 as [(Q1 & Q2 & Q3)|(Q1 & Q2 & Q3 & Q4 & Q5 & Q6 & Q7 & Q8)].
     + left. rewrite Q1. subst xa. reflexivity.
     + right. exists v. unfold lockv in *. subst xa. cbn [tc_set_t tc_t store_p t_prepared] in Q1. split; [exact Q2|]. split; [exact Q1|].
       destruct Q4 as (en & G1 & G2). pose proof (Gpp v en G1) as G1'. destruct (si_pp _ _ SI v en G1') as [_ Hle].
       split; [rewrite P2; cbn [tc_set_t tc_v]; rewrite A2; lia|]. split; [rewrite Q3; exists en; auto|exact EV].
   - intros v' h' s' H. rewrite P6 in H. subst xa. cbn [tc_set_t tc_t store_p t_p] in H.
     destruct (In_store_in _ _ _ _ _ _ _ H) as [H'|H']; [left; exact H'|]. inversion H'; subst. right; right. do 3 eexists. repeat split; auto.
-  - intros v' h' s' H. destruct P11 as [(Q1 & Q2 & Q3)|(Q1 & Q2 & Q3 & Q4 & Q5 & Q6 & Q7)].
+  - intros v' h' s' H. destruct P11 as [(Q1 & Q2 & Q3)|(Q1 & Q2 & Q3 & Q4 & Q5 & Q6 & Q7 & Q8)].
     + left. rewrite Q2 in H. subst xa. exact H.
     + destruct (Q6 _ H) as [H'|H']; [left; subst xa; exact H'|]. inversion H'; subst. right; left. unfold lockv in *. subst xa. cbn [tc_set_t tc_t store_p t_prepared] in Q1. auto.
+  - destruct P11 as [(Q1 & Q2 & Q3)|(Q1 & Q2 & Q3 & Q4 & Q5 & Q6 & Q7 & Q8)].
+    + left. rewrite Q2. subst xa. reflexivity.
+    + right. exists v, h, (my_sig c). subst xa. cbn [tc_set_t tc_t store_p t_c] in Q8. split; [exact Q8|]. split; [reflexivity|]. apply (si_me _ _ SI).
   - intros v' en H. left. apply Gpp. exact H.
   - intros v' vt b H. left. rewrite P4 in H. subst xa. exact H.
 Qed.
@@ -557,18 +570,18 @@ Record like (x xin : tc) : Prop := {
 Lemma like_refl x : like x x.
 Proof. constructor; auto; try lia; try apply incl_refl. Qed.
 
-Lemma process_pp_step e x xin r s b : TInv c x -> like x xin -> get_pp (tc_t x) (r_view r) = None ->
+Lemma process_pp_step e x xin r s b : TInv c x -> isMember (t_cm (tc_t x)) me = true -> like x xin -> get_pp (tc_t x) (r_view r) = None ->
   (forall en, en = {| pe_ref := r; pe_snd := s; pe_blk := b |} ->
      (exists r0 s0 b0 wm' sh', e = TMsg (MPP r0 s0 b0) wm' sh' /\ en = {| pe_ref := r0; pe_snd := s0; pe_blk := b0 |} /\ r_view r0 = r_view r) \/
      (exists nty ninst nh nvw vs sg pp pps b0 wm' sh', e = TMsg (MNV nty ninst nh nvw vs sg pp pps b0) wm' sh' /\
           en = {| pe_ref := pp; pe_snd := pps; pe_blk := b0 |} /\ r_view pp = r_view r)) ->
   step_sum e x xin -> step_sum e x (process_pp c wm shut xin r s b).
 Proof.
-  intros TI [K1 K2 K3 K4 K5 K6 Kmp K7 K8 K9 K10 K11 [K12 K13]] Hnone Horig Sin.
+  intros TI Hme [K1 K2 K3 K4 K5 K6 Kmp K7 K8 K9 K10 K11 [K12 K13]] Hnone Horig Sin.
   assert (Hnone' : get_pp (tc_t xin) (r_view r) = None) by (rewrite (get_pp_ext _ _ _ K7); exact Hnone).
   destruct (process_pp_own xin r s b Hnone') as [->|[Ev PS]]; [exact Sin|]. cbn zeta in *.
   set (x' := process_pp c wm shut xin r s b) in *. set (v := r_view r) in *. set (h := r_hash r) in *.
-  destruct PS as [S1 S2 S3 S4 [S5 S5'] S6 S7 S8 S9 S10 S11 S12 S13 S14 S15 S16 S17].
+  destruct PS as [S1 S2 S3 S4 [S5 S5'] S6 S7 S8 S9 S10 S11 Sceq S12 S13 S14 S15 S16 S17].
   assert (EV : Vt me x' = Vt me x) by (apply Vt_eq; [rewrite S3; exact K5|rewrite S4; exact K10]).
   assert (GP : forall v' en, get_pp (tc_t xin) v' = Some en -> get_pp (tc_t x) v' = Some en) by (intros v' en H; rewrite <- (get_pp_ext _ _ v' K7); exact H).
   assert (GP' : forall v' en, get_pp (tc_t x) v' = Some en -> get_pp (tc_t xin) v' = Some en) by (intros v' en H; rewrite (get_pp_ext _ _ v' K7); exact H).
@@ -597,6 +610,7 @@ Proof.
     + right. exists v. unfold lockv in *. rewrite K11 in Q1. split; [exact Q2|]. split; [exact Q1|]. split; [rewrite S1; symmetry; exact Ev|]. split; [rewrite Q3; exact Q4|exact EV].
   - intros v' h' s' H. destruct (S8 _ H) as [H'|H']; [left; rewrite K8 in H'; exact H'|]. inversion H'; subst. right; left. split; [reflexivity|]. rewrite S2. left; reflexivity.
   - intros v' h' s' H. destruct (S10 _ H) as [H'|(H' & H1 & H2 & H3 & H4)]; [left; rewrite K9 in H'; exact H'|]. inversion H'; subst. right; left. unfold lockv in *. rewrite K11 in H3. auto.
+  - destruct Sceq as [Sceq|Sceq]; [left; rewrite Sceq; exact K9|right]. exists v, h, (my_sig c). rewrite K9 in Sceq. auto.
   - intros v' en H. destruct (S6 _ _ H) as [H'|[-> ->]]; [left; apply GP; exact H'|].
     right; right. destruct (Horig _ eq_refl) as [(r0 & s0 & b0 & wm' & sh' & A & B & C0)|(nty & ninst & nh & nvw & vs & sg & pp & pps & b0 & wm' & sh' & A & B & C0)].
     + left. exists r0, s0, b0, wm', sh'. repeat split; auto.
@@ -607,19 +621,19 @@ Qed.
 Lemma validate_pp_none t r s : validate_pp c t r s = true -> get_pp t (r_view r) = None.
 Proof. unfold validate_pp. destruct (get_pp t (r_view r)); [discriminate|reflexivity]. Qed.
 
-Lemma handle_pp_own x r s b wm' sh' : TInv c x -> step_sum (TMsg (MPP r s b) wm' sh') x (handle_pp c wm shut x r s b).
+Lemma handle_pp_own x r s b wm' sh' : TInv c x -> SInv c x -> step_sum (TMsg (MPP r s b) wm' sh') x (handle_pp c wm shut x r s b).
 Proof.
-  intro TI. unfold handle_pp. destruct (validate_pp c (tc_t x) r s) eqn:Ev; cbn [negb]; [|apply step_sum_refl].
+  intros TI SI. unfold handle_pp. destruct (validate_pp c (tc_t x) r s) eqn:Ev; cbn [negb]; [|apply step_sum_refl].
   destruct (ctx_ok _ _ _); cbn [negb]; [|apply step_sum_refl].
   destruct (validProposal _ _ _ _); cbn [negb]; [|apply step_sum_refl].
-  apply process_pp_step; [exact TI|apply like_refl|apply validate_pp_none with s; exact Ev| |apply step_sum_refl].
+  apply process_pp_step; [exact TI|apply (si_me _ _ SI)|apply like_refl|apply validate_pp_none with s; exact Ev| |apply step_sum_refl].
   intros en ->. left. exists r, s, b, wm', sh'. auto.
 Qed.
 
-Lemma handle_nv_own x nty ninst nh nvw vs sg pp pps b wm' sh' : TInv c x ->
+Lemma handle_nv_own x nty ninst nh nvw vs sg pp pps b wm' sh' : TInv c x -> SInv c x ->
   step_sum (TMsg (MNV nty ninst nh nvw vs sg pp pps b) wm' sh') x (handle_nv c wm shut x nty ninst nh nvw vs sg pp pps b).
 Proof.
-  intro TI. unfold handle_nv.
+  intros TI SI. unfold handle_nv.
   destruct (N.ltb_spec nvw (tc_v x)) as [|Hge]; [apply step_sum_refl|].
   destruct (N.eqb nty T_NEW_VIEW); cbn [negb]; [|apply step_sum_refl].
   destruct (s_ok sg); cbn [negb]; [|apply step_sum_refl].
@@ -653,8 +667,9 @@ Proof.
       all: try (left; unfold lockv; exact K11).
       all: try (intros v' h' s' H; left; rewrite ?K8, ?K9 in H; exact H).
       all: try (intros v' en H; left; rewrite (get_pp_ext _ _ v' K7) in H; exact H).
-      all: try (intros v' vt b' H; left; rewrite K10 in H; exact H). }
-    apply process_pp_step; [exact TI|exact LK|apply validate_pp_none with pps; exact Ev| |exact S1].
+      all: try (intros v' vt b' H; left; rewrite K10 in H; exact H).
+      all: try (left; exact K9). }
+    apply process_pp_step; [exact TI|apply (si_me _ _ SI)|exact LK|apply validate_pp_none with pps; exact Ev| |exact S1].
     intros en ->. right. exists nty, ninst, nh, nvw, vs, sg, pp, pps, b, wm', sh'. auto. }
   destruct (latest_vote vs) as [lv|].
   - destruct (v_proof lv) as [p|]; [|apply step_sum_refl].
@@ -674,7 +689,7 @@ Proof.
   destruct (check_elected_own xa v) as [->|[Hlt EL]]; [exact Sa|]. cbn zeta in *.
   set (x' := check_elected c wm shut xa v) in *.
   destruct EL as [S1 S2 S3 S4 S5 S6 S7 [S8 S8'] S9 S10 So Sc S11].
-  destruct Sa as [T1 [T2 T2'] T3 T4 T5 T6 T7 T8 T9 T10 T11 T11' T12 T13 T14 T15 T16].
+  destruct Sa as [T1 [T2 T2'] T3 T4 T5 T6 T7 T8 T9 T10 T11 T11' T12 T13 T14 Tceq T15 T16].
   assert (EV : Vt me x' = Vt me xa) by (apply Vt_eq; assumption).
   constructor.
   - lia.
@@ -722,6 +737,7 @@ Proof.
   - intros v' h' s' H. rewrite S7 in H. apply T14 in H. destruct H as [H|[(H1 & H2 & H3 & H4 & H5)|H]]; auto.
     right; left. split; [exact H1|]. rewrite S1. split; [exact H2|]. rewrite S3. split; [exact H3|]. split; [exact H4|].
     unfold hash_at in *. destruct (get_pp (tc_t xa) v') as [en|] eqn:G; [rewrite (S10 _ _ G); exact H5|]. destruct (si_prep _ _ SIa v' H3) as (en & _ & G' & _). congruence.
+  - rewrite S7. exact Tceq.
   - intros v' en H. destruct S11 as [[Ee Hpp]|(h & Ee & Ev & Hpp & _)].
     + apply Hpp in H. apply T15 in H. destruct H as [H|[(H1 & H2 & H3)|H]]; auto. right; left. rewrite Ee. auto.
     + destruct (Hpp _ _ H) as [H'|(-> & H1 & H2 & H3)].
@@ -766,6 +782,7 @@ Proof.
       all: try (intros v' y H; left; unfold E, C, D in *; cbn [tc_set_t tc_out] in *; rewrite ?EE, ?EC, ?ED in H; exact H).
       all: try (intros vt' H; left; rewrite EV in H; exact H).
       all: try (apply Vt_same_one; exact EV).
+      all: try (left; reflexivity).
     + subst xa.
       assert (EVa : own_stored me (store_vc v vt b (tc_t x)) = own_stored me (tc_t x) ++ (if N.eqb (s_id (v_snd vt)) me then [vt] else [])).
       { unfold own_stored. rewrite V1, flat_map_app. cbn [flat_map fst snd]. rewrite app_nil_r. reflexivity. }
@@ -795,6 +812,7 @@ Proof.
       * left. unfold lockv. cbn [tc_set_t tc_t]. exact V5.
       * intros v' h' s' H. left. rewrite V3 in H. exact H.
       * intros v' h' s' H. left. rewrite V4 in H. exact H.
+      * left. exact V4.
       * intros v' en H. left. rewrite (get_pp_ext _ _ v' V2) in H. exact H.
       * intros v' vt' b' H. rewrite V1 in H. apply in_app_or in H. destruct H as [H|[H|[]]]; [left; exact H|]. inversion H; subst v' vt' b'.
         destruct Horig as [[Hm _]|(Hme & _)]; [right; right; exact Hm|].
@@ -867,7 +885,8 @@ Proof.
     all: try (intros v' y H; left; rewrite ?B3, ?B4, ?B5 in H; exact H).
     all: try (intros vt' H; left; rewrite EV in H; exact H).
     all: try (apply Vt_same_one; exact EV).
-    all: try (left; unfold lockv; rewrite B1; reflexivity). }
+    all: try (left; unfold lockv; rewrite B1; reflexivity).
+    all: try (left; reflexivity). }
   set (res := match t_prepared (tc_t x) with Some pv => extract_proof c (tc_t x) pv | None => (None, false) end).
   destruct (snd res) eqn:Epanic.
   { apply VIEWONLY.
@@ -937,6 +956,7 @@ Proof.
     + left. unfold lockv. cbn [tc_emit tc_t]. rewrite A1. reflexivity.
     + intros v' h' s' H. left. exact H.
     + intros v' h' s' H. left. exact H.
+    + left. reflexivity.
     + intros v' en H. left. exact H.
     + intros v' vt' b' H. left. exact H.
 Qed.
@@ -946,11 +966,11 @@ Theorem tstep_sum c H x e : TInv c x -> SInv c x -> t_h (tc_t x) = H -> tev_ok c
 Proof.
   intros TI SI Hh Hok. destruct e as [m wm shut|h v wm shut]; cbn [tstep tev_ok] in *.
   - destruct Hok as [Hmh Hms]. destruct m as [r s b|r s|r s o|vt b|nty ninst nh nvw vs sg pp pps b]; cbn [thandle msg_height msg_sender] in *.
-    + apply handle_pp_own. exact TI.
+    + apply handle_pp_own; assumption.
     + apply handle_p_own. exact SI.
     + apply handle_c_own.
     + apply handle_vc_own; auto. congruence.
-    + apply handle_nv_own. exact TI.
+    + apply handle_nv_own; assumption.
   - apply move_own; assumption.
 Qed.
 
